@@ -50,7 +50,7 @@ CHECKS = {
              text='TLC checks BoundaryCover and BlocksMinimal for SHA-256, RIPEMD-160, SHA3-256/384/512, Keccak-256/512 and enumerates family x boundary length x 7 write chunkings, variable-length sums (length x declared maximum x minimal-length option), MiMC / Poseidon2 by element count, chunking and state export/import point, Merkle proofs by tree size and leaf, Fiat-Shamir transcripts; each case must reproduce the native digest on the real gadget (test engine; a sample through both builders and solvers) and reject a wrong digest, the digest of a shorter prefix, a wrong leaf index or an altered sibling.',
              note='Message contents are seeded pseudo-random bytes; lengths up to two blocks + 1.', ref='6 C15 / 11.2'),
  'C18': dict(tech='TLA+ model of contribution chains (MpcSetup.tla) enumerated by TLC; every transcript replayed on the real mpcsetup package through serialization, verdicts and extracted keys compared',
-             text='TLC enumerates, for both phases, circuits with/without commitment and 1-3 contributions, the transcripts a verifier may be handed: honest, one serialized element altered (every component x first/mid/last x double/negation/infinity, challenge bit flip), contributions swapped, dropped, duplicated, spliced from a second honest chain, phase 2 checked against another phase-1 output or another circuit; the verdict is "every contribution unaltered and extending its predecessor". Each transcript goes through WriteTo / byte edit / ReadFrom / VerifyPhase1|2 of the real package on the curves; accepted phase-2 transcripts must give keys that prove, verify and reject other public inputs.',
+             text='TLC enumerates, for both phases, circuits with 0, 1 or 2 commitments (and a phase-1 domain larger than needed) and 1-3 contributions, the transcripts a verifier may be handed: honest, one serialized element altered (every component x first/mid/last x double/negation/infinity, challenge bit flip), contributions swapped, dropped, duplicated, spliced from a second honest chain, a dishonest contributor binding its update proofs to a challenge of its own choosing, phase 2 checked against another phase-1 output or another circuit; the verdict is "every contribution unaltered and extending its predecessor". Each transcript goes through WriteTo / byte edit / ReadFrom / VerifyPhase1|2 of the real package on the curves; accepted phase-2 transcripts must give keys that prove, verify and reject other public inputs.',
              note='Knowledge soundness of the update proofs is an ideal rule; replacements are other valid group elements, not arbitrary bytes; small domains only.', ref='6 C18 / 11.2'),
  'C20': dict(tech='TLA+ entropy-as-resource model of prover randomness (Blinding.tla) checked by TLC; every history replayed on the real provers with deterministic parts recomputed from the solved wires and keys',
              text='TLC checks on all histories of 2-3 proofs that every blinded element depends on a fresh symbol; each history (backend x circuits with 0-3 commitments x statistical ZK) is replayed on the real provers of the curves: Groth16 Ar/Bs and PLONK L/R/O are compared with the deterministic commitments recomputed from the captured wire values and the proving key, and all blinded elements (Ar, Bs, Krs, Pedersen commitments; L, R, O, Z, H shards, BSB22 commitments) pairwise across proofs of one witness.',
